@@ -81,6 +81,23 @@ MInit ==
   /\ jflag = [r \in Rooms |-> FALSE] /\ pc = [c \in CallSet |-> "idle"] /\ sent = {} /\ hold = None
 Init == OInit /\ MInit
 
+(* SHAPES of an error reply (s.shape; "-" for every other stanza).  The room answers a request with  *)
+(* <presence type="error" id=...>; what stands inside is the peer's choice:                          *)
+(*   well-formed (the reply carries ONE decodable stanza error, the call returns exactly that):      *)
+(*     "wf" the muc payload echoed, then the error; "nox" the error alone; "ux" a muc#user payload    *)
+(*     before the error; "pre" character data and foreign elements before the error; "post" further   *)
+(*     children after the error;                                                                      *)
+(*   malformed (no stanza error the property could name: the call still returns, with SOME error):   *)
+(*     "bare" no children at all; "noerr" children but no <error/>; "wrongns" an <error/> of a        *)
+(*     foreign namespace; "empty" <error/> without type and condition; "badby" an attribute that      *)
+(*     cannot be decoded; "unktype" an unknown type attribute; "text" a text and no condition.        *)
+(* Whatever the shape: the reply answers that request (Decisive), the call returns, the reply is     *)
+(* released (the serve loop goes on with the next stanza), and membership follows the property.      *)
+WellFormedShapes == {"wf", "nox", "ux", "pre", "post"}
+MalformedShapes == {"bare", "noerr", "wrongns", "empty", "badby", "unktype", "text"}
+Malformed(s) == s.ty = "er" /\ s.shape \notin WellFormedShapes
+AnyErr == "any-error"      \* member of cand[c]: a malformed error reply to c is on its way, every error outcome is acceptable
+
 Pending(c) == st[c] = "pending"
 PendingOn(r) == {c \in CallSet : Pending(c) /\ room[c] = r}
 
@@ -117,15 +134,15 @@ OCancel(c) ==
   /\ st[c] # "idle" /\ cancelled' = cancelled \cup {c}
   /\ UNCHANGED <<kind, room, st, res, wire, cand, owed, dirty, memAt, mem, has, inflight, cbs, ups, viol>>
 
-(* the room begins to send stanza s = [ty, room, nick, call, n, lay, pw]; part: only a first  *)
+(* the room begins to send stanza s = [ty, room, nick, call, n, lay, pw, shape]; part: only a first  *)
 (* piece of its bytes is delivered for now (the remainder follows with ORest)                *)
 OSend(s, part) ==
   /\ inflight' = Append(inflight, [ty |-> s.ty, room |-> s.room, nick |-> s.nick, call |-> s.call, n |-> s.n,
-                                   lay |-> s.lay, pw |-> s.pw, part |-> part,
+                                   lay |-> s.lay, pw |-> s.pw, shape |-> s.shape, part |-> part,
                                    after |-> {c \in wire : Pending(c) /\ c \notin cancelled}])
   /\ cand' = [c \in CallSet |-> IF Pending(c)
                                 THEN cand[c] \cup (IF Positive(s, c) THEN {"ok"} ELSE {})
-                                             \cup (IF ErrFor(s, c) THEN {CondOf[c]} ELSE {})
+                                             \cup (IF ErrFor(s, c) THEN {IF Malformed(s) THEN AnyErr ELSE CondOf[c]} ELSE {})
                                 ELSE cand[c]]
   /\ dirty' = dirty \cup {c \in CallSet : Pending(c) /\ kind[c] \in JoinKinds /\ SelfUn(s, room[c])}
   /\ UNCHANGED <<kind, room, st, res, cancelled, wire, owed, memAt, mem, has, cbs, ups, viol>>
@@ -185,13 +202,14 @@ OHandled(d) ==
 
 RetGood(c, o, cond) ==
   CASE o = "ok" -> "ok" \in cand[c]
-    [] o = "err" -> cond \in cand[c]
+    [] o = "err" -> cond \in cand[c] \/ AnyErr \in cand[c]
+    [] o = "other" -> AnyErr \in cand[c]          \* an error that is no stanza error: only for a malformed error reply
     [] o = "ctx" -> c \in cancelled
     [] OTHER -> FALSE
 RetClause(c, o) ==
   CASE o = "ok" /\ kind[c] \in JoinKinds -> "C18_JoinOK"
     [] o = "ok" -> "C18_LeaveOK"
-    [] o = "err" -> "C18_JoinErr"
+    [] o \in {"err", "other"} -> "C18_JoinErr"
     [] o = "ctx" -> "C18_CtxErr"
     [] OTHER -> "C18_Outcome"
 
@@ -228,12 +246,16 @@ OUserPres ==
 
 (* Nothing can move any more without the environment (every goroutine is blocked): a call *)
 (* must not be found waiting when its context has ended or its answer has been processed, *)
-(* nor with a live context and its request never sent (the room can then never answer)   *)
+(* nor with a live context and its request never sent (the room can then never answer);  *)
+(* and no stanza is left unprocessed: the serve loop is not waiting for a reply that a    *)
+(* caller / helper was handed and never released                                          *)
 StallClauses ==
   {"C06_CallReturns" : c \in {c \in CallSet : Pending(c) /\ c \in cancelled}}
   \cup {"C18_JoinCompletes" : c \in {c \in CallSet : Pending(c) /\ c \in owed /\ kind[c] \in JoinKinds}}
   \cup {"C18_LeaveReturns" : c \in {c \in CallSet : Pending(c) /\ c \in owed /\ kind[c] = "leave"}}
   \cup {"C18_RequestSent" : c \in {c \in CallSet : Pending(c) /\ c \notin cancelled /\ c \notin wire}}
+  \* the serve loop: a stanza the room has sent completely is processed (whoever was handed a reply has released it)
+  \cup {"C06_NoStall" : i \in 1..Len(inflight)}
 (* (while the room is in the middle of sending a stanza the environment still owes its    *)
 (* remainder: not a point at which a stall can be judged)                                   *)
 OQuiet ==
@@ -300,7 +322,7 @@ DepartWake(c) ==
   /\ UNCHANGED <<ovars, managed, jbuf, jflag, sent, hold>>
 
 Ret(c) ==
-  /\ pc[c] \in {"ok", "err", "ctx"}
+  /\ pc[c] \in {"ok", "err", "ctx", "other"}
   /\ ORet(c, pc[c], IF pc[c] = "err" THEN CondOf[c] ELSE None)
   /\ pc' = [pc EXCEPT ![c] = "done"]
   /\ IF kind[c] = "leave" /\ pc[c] = "err"       \* the room refused the leave: not an occupant (pinned by TestPartError)
@@ -347,6 +369,10 @@ HandleUn ==
 (* returned already - the goroutine gives up and closes the reply (ErDrop).  The deviation      *)
 (* ErrHandoverBlocks offers the error without watching the context (a plain channel send).    *)
 (* Otherwise the stanza goes to the multiplexer, where nobody claims it (ErToMux).            *)
+(* The decoding of the reply may fail (no <error/> child, an undecodable one): the goroutine then   *)
+(* offers that error instead - and closes the reply all the same.  The deviation ErrReplyLeaked     *)
+(* returns from the decoding helper on its error path without closing the reply.                    *)
+Leaked == "leaked"
 SenderWaits(c) == c \in sent /\ pc[c] \in {"pre", "wait"}
 ErHandOff ==
   /\ inflight # <<>> /\ Head(inflight).ty = "er" /\ hold = None
@@ -354,12 +380,17 @@ ErHandOff ==
   /\ hold' = Head(inflight).call
   /\ UNCHANGED <<ovars, managed, jbuf, depart, jflag, pc, sent>>
 ErDeliver ==
-  /\ HeadWhole /\ hold # None /\ pc[hold] = "wait"
-  /\ pc' = [pc EXCEPT ![hold] = "err"] /\ hold' = None
-  /\ OHandled(Desc(Head(inflight)))
-  /\ UNCHANGED <<nenv, managed, jbuf, depart, jflag, sent>>
+  /\ HeadWhole /\ hold \in CallSet /\ pc[hold] = "wait"
+  /\ IF Malformed(Head(inflight)) /\ "ErrReplyLeaked" \in Dev
+     THEN \* the goroutine reports the decoding error and forgets to close the reply
+          /\ pc' = [pc EXCEPT ![hold] = "other"] /\ hold' = Leaked /\ UNCHANGED ovars
+     ELSE \* a malformed reply gives the decoder's error, or whatever stanza error the decoder made of it
+          /\ \E o \in (IF Malformed(Head(inflight)) THEN {"err", "other"} ELSE {"err"}) : pc' = [pc EXCEPT ![hold] = o]
+          /\ hold' = None
+          /\ OHandled(Desc(Head(inflight))) /\ UNCHANGED nenv
+  /\ UNCHANGED <<managed, jbuf, depart, jflag, sent>>
 ErDrop ==
-  /\ HeadWhole /\ hold # None /\ (hold \in cancelled \/ pc[hold] \notin {"pre", "wait"})
+  /\ HeadWhole /\ hold \in CallSet /\ (hold \in cancelled \/ pc[hold] \notin {"pre", "wait"})
   /\ "ErrHandoverBlocks" \notin Dev
   /\ hold' = None
   /\ OHandled(Desc(Head(inflight)))
